@@ -221,22 +221,22 @@ Proof.
   rewrite Hx. now apply IH.
 Qed.
 
-Lemma tree_ok_set ext a g items b :
-  tree_ok (SSet ext a g items b) = true -> items <> [] /\ forallb tree_ok items = true.
-Proof. cbn [tree_ok]. rewrite andb_true_iff. intros [H1 H2]. split; [|exact H2]. destruct items; [discriminate | discriminate]. Qed.
-Lemma tree_ok_comp arm a g items b :
-  tree_ok (SComp arm a g items b) = true ->
-  (arm < length parse_compound_arms)%nat /\ items <> [] /\ forallb tree_ok items = true.
+Lemma shape_ok_set ext a g items b :
+  shape_ok (SSet ext a g items b) = true -> items <> [] /\ forallb shape_ok items = true.
+Proof. cbn [shape_ok]. rewrite andb_true_iff. intros [H1 H2]. split; [|exact H2]. destruct items; [discriminate | discriminate]. Qed.
+Lemma shape_ok_comp arm a g items b :
+  shape_ok (SComp arm a g items b) = true ->
+  (arm < length parse_compound_arms)%nat /\ items <> [] /\ forallb shape_ok items = true.
 Proof.
-  cbn [tree_ok]. rewrite !andb_true_iff. intros [[H0 H1] H2]. apply Nat.ltb_lt in H0. repeat split; [exact H0| |exact H2].
+  cbn [shape_ok]. rewrite !andb_true_iff. intros [[H0 H1] H2]. apply Nat.ltb_lt in H0. repeat split; [exact H0| |exact H2].
   destruct items; [discriminate | discriminate].
 Qed.
-Lemma tree_ok_stmt arm a b c d s p :
-  tree_ok (SStmt arm a b c d s p) = true ->
-  (arm < length parse_statement_arms)%nat /\ tree_ok s = true /\ tree_ok p = true.
-Proof. cbn [tree_ok]. rewrite !andb_true_iff. intros [[H0 H1] H2]. apply Nat.ltb_lt in H0. tauto. Qed.
-Lemma tree_ok_atom arm name : tree_ok (SAtom arm name) = true -> (arm < length parse_atom_arms)%nat.
-Proof. cbn [tree_ok]. apply Nat.ltb_lt. Qed.
+Lemma shape_ok_stmt arm a b c d s p :
+  shape_ok (SStmt arm a b c d s p) = true ->
+  (arm < length parse_statement_arms)%nat /\ shape_ok s = true /\ shape_ok p = true.
+Proof. cbn [shape_ok]. rewrite !andb_true_iff. intros [[H0 H1] H2]. apply Nat.ltb_lt in H0. tauto. Qed.
+Lemma shape_ok_atom arm name : shape_ok (SAtom arm name) = true -> (arm < length parse_atom_arms)%nat.
+Proof. cbn [shape_ok]. apply Nat.ltb_lt. Qed.
 
 Lemma omap_some_each {A B} (f : A -> option B) l r : omap f l = Some r -> forall x, In x l -> exists y, f x = Some y.
 Proof.
@@ -246,26 +246,26 @@ Proof.
 Qed.
 
 (* a tree that has a meaning is well-shaped *)
-Lemma odesugar_tree_ok : forall t v, odesugar t = Some v -> tree_ok t = true.
+Lemma odesugar_shape_ok : forall t v, odesugar t = Some v -> shape_ok t = true.
 Proof.
   induction t as [arm name|ext a g items b IH|arm a g items b IH|arm a b c d x y IHx IHy] using sterm_ind'; intros v Hv.
-  - rewrite odesugar_atom in Hv. cbn [tree_ok]. apply Nat.ltb_lt. apply nth_error_Some.
+  - rewrite odesugar_atom in Hv. cbn [shape_ok]. apply Nat.ltb_lt. apply nth_error_Some.
     destruct (nth_error parse_atom_arms arm); [discriminate | discriminate].
   - rewrite odesugar_set in Hv. destruct (omap odesugar items) as [[|v0 vs]|] eqn:Ho; try discriminate.
-    cbn [tree_ok]. apply andb_true_iff. split.
+    cbn [shape_ok]. apply andb_true_iff. split.
     + destruct items; [discriminate | reflexivity].
     + apply forallb_forall. intros z Hz. destruct (omap_some_each _ _ _ Ho z Hz) as [w Hw].
       rewrite Forall_forall in IH. exact (IH z Hz w Hw).
   - rewrite odesugar_comp in Hv. destruct (nth_error parse_compound_arms arm) as [[kw init]|] eqn:Hn; [|discriminate].
     destruct (omap odesugar items) as [[|v0 vs]|] eqn:Ho; try discriminate.
-    cbn [tree_ok]. rewrite !andb_true_iff. repeat split.
+    cbn [shape_ok]. rewrite !andb_true_iff. repeat split.
     + apply Nat.ltb_lt. apply nth_error_Some. congruence.
     + destruct items; [discriminate | reflexivity].
     + apply forallb_forall. intros z Hz. destruct (omap_some_each _ _ _ Ho z Hz) as [w Hw].
       rewrite Forall_forall in IH. exact (IH z Hz w Hw).
   - rewrite odesugar_stmt in Hv. destruct (nth_error parse_statement_arms arm) as [[kw bd]|] eqn:Hn; [|discriminate].
     destruct (odesugar x) as [vx|] eqn:Hx; [|discriminate]. destruct (odesugar y) as [vy|] eqn:Hy; [|discriminate].
-    cbn [tree_ok]. rewrite !andb_true_iff. repeat split; eauto.
+    cbn [shape_ok]. rewrite !andb_true_iff. repeat split; eauto.
     apply Nat.ltb_lt. apply nth_error_Some. congruence.
 Qed.
 
@@ -314,26 +314,26 @@ Section AgreeTerm.
     rewrite (H x (or_introl eq_refl)), IH; [reflexivity|]. intros y Hy. apply H. now right.
   Qed.
 
-  Theorem render_respace0 : forall t, tree_ok t = true ->
+  Theorem render_respace0 : forall t, shape_ok t = true ->
     render E (respace 0 t) = f0 L (lex_tree E t).
   Proof.
     destruct ag_brackets as (Hcl & Hcr & Hsep & Hsl & Hsr).
     induction t as [arm name|ext a g items b IH|arm a g items b IH|arm a b c d x y IHx IHy] using sterm_ind';
       intros Hne; cbn [respace lex_tree] in *.
     - reflexivity.
-    - apply tree_ok_set in Hne as [Hn Hall]. destruct items as [|x items]; [congruence|].
+    - apply shape_ok_set in Hne as [Hn Hall]. destruct items as [|x items]; [congruence|].
       rewrite render_set_eq, !sp_zero. cbn [map app]. rewrite render_items_cons. cbn [app].
       rewrite f0_set.
       inversion IH as [|? ? IHx IHl]; subst. cbn [forallb] in Hall. apply andb_true_iff in Hall as [Hx Hl].
       rewrite (IHx Hx), <- !app_assoc. f_equal. f_equal. f_equal.
       apply render_items_respace0. intros y Hy. rewrite Forall_forall in IHl. apply IHl; [exact Hy|].
       now apply (forallb_In _ _ _ Hl).
-    - apply tree_ok_comp in Hne as (_ & Hn & Hall). destruct items as [|x items]; [congruence|].
+    - apply shape_ok_comp in Hne as (_ & Hn & Hall). destruct items as [|x items]; [congruence|].
       rewrite render_comp_eq, !sp_zero. cbn [map app].
       rewrite f0_compound, Hcl, Hcr. f_equal. f_equal. f_equal.
       apply (render_items_respace0 (x :: items)). intros y Hy. rewrite Forall_forall in IH. apply IH; [exact Hy|].
       now apply (forallb_In _ _ _ Hall).
-    - apply tree_ok_stmt in Hne as (_ & Hx & Hy).
+    - apply shape_ok_stmt in Hne as (_ & Hx & Hy).
       rewrite render_stmt_eq, !sp_zero. cbn [app]. rewrite f0_statement, Hsl, Hsr, (IHx Hx), (IHy Hy). reflexivity.
   Qed.
 
@@ -563,9 +563,9 @@ Section AgreeTerm.
   Qed.
 
   Lemma lex_unamb_items fb l : forall i tail,
-    Forall (fun t => forall forbid k, tree_ok t = true ->
+    Forall (fun t => forall forbid k, shape_ok t = true ->
                      unamb_ctx ia E forbid (respace 0 t) k = true -> LexSpec.unamb L (lex_tree E t) k) l ->
-    forallb tree_ok l = true ->
+    forallb shape_ok l = true ->
     unamb_items E (unamb_ctx ia E fb) (render E) zgaps i (map (respace 0) l) tail = true ->
     unamb_seq L (map (lex_tree E) l) tail.
   Proof.
@@ -580,18 +580,18 @@ Section AgreeTerm.
 
   (* the unambiguity conditions of the lexical term layer (C02) hold for the lexical reading of t as soon
      as the enum-side conditions hold for t written WITHOUT any space *)
-  Theorem lex_unamb_of_enum : forall t forbid k, tree_ok t = true ->
+  Theorem lex_unamb_of_enum : forall t forbid k, shape_ok t = true ->
     unamb_ctx ia E forbid (respace 0 t) k = true -> LexSpec.unamb L (lex_tree E t) k.
   Proof.
     destruct ag_brackets as (Hcl & Hcr & Hsep & Hsl & Hsr).
     induction t as [arm name|ext a g items b IH|arm a g items b IH|arm a b c d x y IHx IHy] using sterm_ind';
       intros forbid k Hok Hu; cbn [respace lex_tree unamb_ctx] in *.
-    - cbn [LexSpec.unamb]. apply (lex_atom_unamb forbid); [exact (tree_ok_atom _ name Hok) | exact Hu].
-    - apply tree_ok_set in Hok as [_ Hall]. apply unamb_set. rewrite sp_zero in Hu. cbn [app] in Hu.
+    - cbn [LexSpec.unamb]. apply (lex_atom_unamb forbid); [exact (shape_ok_atom _ name Hok) | exact Hu].
+    - apply shape_ok_set in Hok as [_ Hall]. apply unamb_set. rewrite sp_zero in Hu. cbn [app] in Hu.
       eapply lex_unamb_items; eauto.
-    - apply tree_ok_comp in Hok as (_ & _ & Hall). apply unamb_compound. rewrite sp_zero in Hu. cbn [app] in Hu.
+    - apply shape_ok_comp in Hok as (_ & _ & Hall). apply unamb_compound. rewrite sp_zero in Hu. cbn [app] in Hu.
       rewrite Hcr. eapply lex_unamb_items; eauto.
-    - apply tree_ok_stmt in Hok as (_ & Hx & Hy). apply andb_true_iff in Hu as [Hux Huy].
+    - apply shape_ok_stmt in Hok as (_ & Hx & Hy). apply andb_true_iff in Hu as [Hux Huy].
       rewrite !sp_zero in Hux, Huy. cbn [app] in Hux, Huy. cbn [LexSpec.unamb]. rewrite Hsr. split.
       + rewrite <- (render_respace0 y Hy). now apply (IHx [space_parse E]).
       + now apply (IHy [space_parse E]).
@@ -626,8 +626,8 @@ Section AgreeTerm.
       destruct (omap_some_each _ _ _ Ho x Hx) as [w Hw]. rewrite Forall_forall in HF.
       exact (HF x Hx w Hw (forallb_In _ _ _ Hn Hx)). }
     induction t as [arm name|ext a g items b IH|arm a g items b IH|arm a b c d x y IHx IHy] using sterm_ind';
-      intros v Hv Hn; pose proof (odesugar_tree_ok _ _ Hv) as Hshape; cbn [lex_tree lterm_ok names_ok] in *.
-    - rewrite (In_str_in _ _ (atom_prefix_in arm (tree_ok_atom _ _ Hshape))). cbn [andb].
+      intros v Hv Hn; pose proof (odesugar_shape_ok _ _ Hv) as Hshape; cbn [lex_tree lterm_ok names_ok] in *.
+    - rewrite (In_str_in _ _ (atom_prefix_in arm (shape_ok_atom _ _ Hshape))). cbn [andb].
       replace (forallb (ident L ia) name) with (forallb (name_charb ia E) name) by (apply forallb_ext'; intros c; now rewrite Hid).
       rewrite Hn. cbn [andb]. rewrite odesugar_atom in Hv. unfold atom_prefix.
       destruct (nth_error parse_atom_arms arm) as [[p init]|] eqn:Harm; [|discriminate].
@@ -638,15 +638,15 @@ Section AgreeTerm.
       destruct (p E); [discriminate | reflexivity].
     - rewrite odesugar_set in Hv. destruct (omap odesugar items) as [[|v0 vs]|] eqn:Ho; try discriminate.
       rewrite (In_pair_in _ _ (Hsets ext)). cbn [andb]. rewrite (Hitems _ _ IH Ho Hn), andb_true_r.
-      apply tree_ok_set in Hshape as [Hne _]. destruct items; [congruence | reflexivity].
+      apply shape_ok_set in Hshape as [Hne _]. destruct items; [congruence | reflexivity].
     - rewrite odesugar_comp in Hv. destruct (nth_error parse_compound_arms arm) as [[kw init]|] eqn:Harm; [|discriminate].
       destruct (omap odesugar items) as [[|v0 vs]|] eqn:Ho; try discriminate.
-      apply tree_ok_comp in Hshape as (Hlt & Hne & _).
+      apply shape_ok_comp in Hshape as (Hlt & Hne & _).
       rewrite (In_str_in _ _ (comp_kw_in arm Hlt)). cbn [andb]. rewrite (Hitems _ _ IH Ho Hn), andb_true_r.
       destruct items; [congruence | reflexivity].
     - rewrite odesugar_stmt in Hv. destruct (nth_error parse_statement_arms arm) as [[kw bd]|] eqn:Harm; [|discriminate].
       destruct (odesugar x) as [vx|] eqn:Hx; [|discriminate]. destruct (odesugar y) as [vy|] eqn:Hy; [|discriminate].
-      apply tree_ok_stmt in Hshape as (Hlt & _ & _). apply andb_true_iff in Hn as [Hnx Hny].
+      apply shape_ok_stmt in Hshape as (Hlt & _ & _). apply andb_true_iff in Hn as [Hnx Hny].
       rewrite (In_str_in _ _ (stmt_kw_in arm Hlt)), (IHx _ eq_refl Hnx), (IHy _ eq_refl Hny). reflexivity.
   Qed.
 End AgreeTerm.
@@ -838,7 +838,7 @@ Section Agreement.
     lex_parse_term ia L s = LOk (lex_tree E t).
   Proof.
     intros Hv Hu Hs. destruct all_parts as (Hag & _ & Hlt & _).
-    pose proof (odesugar_tree_ok _ _ Hv) as Hshape.
+    pose proof (odesugar_shape_ok _ _ Hv) as Hshape.
     assert (Hn : names_ok ia E t = true).
     { rewrite <- (names_ok_respace ia E 0). exact (unamb_names ia E _ _ _ Hu). }
     unfold lex_parse_term, lex_parse_term_fuel. rewrite Hs, (render_respace0 ia E L Hag t Hshape).
@@ -1040,3 +1040,135 @@ Example ex_han_space_disagree :
   lex_then_fold std_alnum LEX_HAN FORMAT_HAN (render FORMAT_HAN t) =
     FOk (TBox2 Inheritance (TSet SetExtension [TName Word [97]%N]) (TSet SetIntension [TName Word [20540]%N])).
 Proof. vm_compute. repeat split; reflexivity. Qed.
+
+(* ================================================================================== *)
+(* 8. self-delimiting formats (ASCII, LaTeX): no condition on the text is left          *)
+(* ================================================================================== *)
+(* Proofs/EnumUnambP.v: for a format passing the finite check unamb_fmt_ok, unamb follows from the
+   well-formedness of the ATOMS of the tree (satoms_ok: named atoms with the property's name_ok, the bare
+   placeholder or one followed by a harmless name, digit intervals), at ANY spacing.  satoms_ok does not
+   look at the spacing, so both instances of unamb needed above are discharged at once. *)
+From Nv Require Import Proofs.EnumUnambP.
+
+Section SelfDelim.
+  Variable F : Type.
+  Variable ia : N -> bool.
+  Variable E : efmt.
+  Variable L : lfmt.
+  Hypothesis Hall : agree_all ia E L = true.
+  Hypothesis Hfo : unamb_fmt_ok ia E = true.
+
+  Lemma sd_parse_ok : parse_ok E = true.
+  Proof. pose proof Hall as H. unfold agree_all in H. rewrite !andb_true_iff in H. tauto. Qed.
+
+  Lemma sd_unamb t : satoms_ok ia E t = true -> forall n, SstOk.unamb ia E (respace n t) [] = true.
+  Proof.
+    intros Hs n. apply (unamb_of_satoms_ok ia E sd_parse_ok Hfo); [|reflexivity]. now rewrite satoms_ok_respace.
+  Qed.
+
+  Theorem agree_term_selfdelim t v :
+    odesugar t = Some v -> satoms_ok ia E t = true ->
+    parse_term F ia E (new_state F (render E t)) =
+      POk v (step F (length (render E t)) (new_state F (render E t))) /\
+    lex_then_fold ia L E (render E t) = FOk v.
+  Proof.
+    intros Hv Hs. apply (agree_term F ia E L Hall t v Hv); [|exact (sd_unamb t Hs 0)].
+    exact (unamb_of_satoms_ok ia E sd_parse_ok Hfo t [] Hs eq_refl).
+  Qed.
+
+  (* the lexical pipeline on ANY text with the same whitespace-free form (C09, Unicode clause included) *)
+  Theorem lex_then_fold_selfdelim t v s :
+    odesugar t = Some v -> satoms_ok ia E t = true ->
+    idealize_env (compile L) s = render E (respace 0 t) ->
+    lex_then_fold ia L E s = FOk v.
+  Proof. intros Hv Hs. apply (lex_then_fold_tree ia E L Hall t v s Hv). exact (sd_unamb t Hs 0). Qed.
+
+  (* C03 as the property states it: everything the enum formatter emits for a well-formed term, and every
+     re-spacing of it (n space keywords at every token boundary; n = 0: all spaces removed) *)
+  Theorem agree_fmt_selfdelim x :
+    fmt_space_ok E = true -> arms_cover E = true -> wf_term ia E x = true ->
+    parse_term F ia E (new_state F (fmt_term E x)) =
+      POk x (step F (length (fmt_term E x)) (new_state F (fmt_term E x))) /\
+    lex_then_fold ia L E (fmt_term E x) = FOk x.
+  Proof.
+    intros Hsp Hcov Hw. destruct (sst_spec ia E Hsp Hcov x Hw) as (_ & Hd & ->).
+    apply agree_term_selfdelim; [exact Hd | now apply sst_satoms_ok].
+  Qed.
+
+  Theorem agree_fmt_respaced_selfdelim n x :
+    fmt_space_ok E = true -> arms_cover E = true -> wf_term ia E x = true ->
+    parse_term F ia E (new_state F (render E (respace n (sst E x)))) =
+      POk x (step F (length (render E (respace n (sst E x)))) (new_state F (render E (respace n (sst E x))))) /\
+    lex_then_fold ia L E (render E (respace n (sst E x))) = FOk x.
+  Proof.
+    intros Hsp Hcov Hw. destruct (sst_spec ia E Hsp Hcov x Hw) as (_ & Hd & _).
+    apply agree_term_selfdelim; [now rewrite odesugar_respace | rewrite satoms_ok_respace; now apply sst_satoms_ok].
+  Qed.
+End SelfDelim.
+
+(* ---- ASCII and LaTeX, char::is_alphanumeric = std's table ---- *)
+Lemma alnum_facts_std_alnum : alnum_facts std_alnum = true.
+Proof. vm_compute. reflexivity. Qed.
+
+Definition plain_pair (E : efmt) (L : lfmt) : Prop :=
+  (E = FORMAT_ASCII /\ L = LEX_ASCII) \/ (E = FORMAT_LATEX /\ L = LEX_LATEX).
+
+Lemma plain_pair_side E L : plain_pair E L ->
+  agree_all std_alnum E L = true /\ unamb_fmt_ok std_alnum E = true /\ fmt_space_ok E = true /\ arms_cover E = true.
+Proof.
+  intros [[-> ->]|[-> ->]].
+  - destruct ascii_side as (_ & H2 & H3). split; [|split; [|split; [exact H2 | exact H3]]].
+    + apply shipped_agree_all_In. left. reflexivity.
+    + apply unamb_fmt_ok_ascii, alnum_facts_std_alnum.
+  - destruct latex_side as (_ & H2 & H3). split; [|split; [|split; [exact H2 | exact H3]]].
+    + apply shipped_agree_all_In. right. left. reflexivity.
+    + apply unamb_fmt_ok_latex, alnum_facts_std_alnum.
+Qed.
+
+(* every surface tree with well-formed atoms, any spacing, plain or derived copulas *)
+Theorem agree_term_plain (F : Type) E L t v : plain_pair E L ->
+  odesugar t = Some v -> satoms_ok std_alnum E t = true ->
+  parse_term F std_alnum E (new_state F (render E t)) =
+    POk v (step F (length (render E t)) (new_state F (render E t))) /\
+  lex_then_fold std_alnum L E (render E t) = FOk v.
+Proof. intros HP. destruct (plain_pair_side E L HP) as (H1 & H2 & _). now apply agree_term_selfdelim. Qed.
+
+Theorem lex_then_fold_plain E L t v s : plain_pair E L ->
+  odesugar t = Some v -> satoms_ok std_alnum E t = true ->
+  idealize_env (compile L) s = render E (respace 0 t) ->
+  lex_then_fold std_alnum L E s = FOk v.
+Proof. intros HP. destruct (plain_pair_side E L HP) as (H1 & H2 & _). now apply lex_then_fold_selfdelim. Qed.
+
+(* C03 for ASCII and LaTeX terms, no side condition beyond the property's well-formedness *)
+Theorem agree_fmt_plain (F : Type) E L x : plain_pair E L -> wf_term std_alnum E x = true ->
+  parse_term F std_alnum E (new_state F (fmt_term E x)) =
+    POk x (step F (length (fmt_term E x)) (new_state F (fmt_term E x))) /\
+  lex_then_fold std_alnum L E (fmt_term E x) = FOk x.
+Proof. intros HP. destruct (plain_pair_side E L HP) as (H1 & H2 & H3 & H4). now apply agree_fmt_selfdelim. Qed.
+
+Theorem agree_fmt_respaced_plain (F : Type) E L n x : plain_pair E L -> wf_term std_alnum E x = true ->
+  parse_term F std_alnum E (new_state F (render E (respace n (sst E x)))) =
+    POk x (step F (length (render E (respace n (sst E x)))) (new_state F (render E (respace n (sst E x))))) /\
+  lex_then_fold std_alnum L E (render E (respace n (sst E x))) = FOk x.
+Proof. intros HP. destruct (plain_pair_side E L HP) as (H1 & H2 & H3 & H4). now apply agree_fmt_respaced_selfdelim. Qed.
+
+(* the same strings written with the derived copulas: the four sugared statements over well-formed
+   operands (any spacing) parse, in BOTH pipelines, to what the documentation says *)
+Theorem agree_sugar_plain (F : Type) E L (arm sp0 sp1 sp2 sp3 : nat) (x y : term) v : plain_pair E L ->
+  wf_term std_alnum E x = true -> wf_term std_alnum E y = true ->
+  let t := SStmt arm sp0 sp1 sp2 sp3 (sst E x) (sst E y) in
+  odesugar t = Some v ->
+  parse_term F std_alnum E (new_state F (render E t)) =
+    POk v (step F (length (render E t)) (new_state F (render E t))) /\
+  lex_then_fold std_alnum L E (render E t) = FOk v.
+Proof.
+  intros HP Hx Hy t Hv. destruct (plain_pair_side E L HP) as (H1 & H2 & H3 & H4).
+  apply agree_term_selfdelim; auto. unfold t. cbn [satoms_ok].
+  rewrite (sst_satoms_ok std_alnum E x H4 Hx), (sst_satoms_ok std_alnum E y H4 Hy), !andb_true_r.
+  unfold t in Hv. rewrite odesugar_stmt in Hv. destruct (nth_error parse_statement_arms arm); [reflexivity | discriminate].
+Qed.
+
+(* non-vacuity: the two example trees have well-formed atoms in both formats *)
+Example ex_satoms_plain :
+  forallb (fun E => satoms_ok std_alnum E (ex_tree 2) && satoms_ok std_alnum E (ex_tree2 1)) [FORMAT_ASCII; FORMAT_LATEX] = true.
+Proof. vm_compute. reflexivity. Qed.
